@@ -56,7 +56,7 @@ CHECKS = {
          "differential interoperability testing against OpenSSL (stdlib ssl on memory BIOs) over an enumerated (role, version, suite, key) matrix plus Hypothesis-drawn options",
          "For every (tlslite role, TLS 1.0-1.3, suite in tlslite ∩ OpenSSL, server key type) and drawn options (group, client authentication, ALPN lists, resumption, HelloRetryRequest, OpenSSL default padded hello, payload sizes) the configuration is first shown to work OpenSSL<->OpenSSL (a tlslite<->tlslite failure of a matrix entry is a violation); "
          "then tlslite-client<->OpenSSL-server and OpenSSL-client<->tlslite-server must complete, report the same version, cipher suite, ALPN protocol and session reuse, authenticate the client when asked, and carry multi-record payloads intact in both directions; a second connection attempts resumption.",
-         "OpenSSL randomness not seedable (configuration is the replay unit); SSLv3, SRP, external PSK, KeyUpdate, record_size_limit, heartbeat, anon and TLS 1.3 CCM suites are outside what the stdlib API reaches",
+         "OpenSSL randomness not seedable (configuration is the replay unit); SSLv3, SRP, external PSK, a negotiated record_size_limit (OpenSSL 3.0 ignores the extension; only that half is exercised), heartbeat, anon and TLS 1.3 CCM suites are outside what the stdlib API reaches",
          "DESIGN.md §4 C07"),
  "C08": ("exploration",
          "structure-aware mutation fuzzing through a well-keyed deviant peer + Hypothesis byte-level targets + coverage-guided fuzzing (atheris/libFuzzer) of the three raw-byte targets; oracle = exception-type / alert / closed / non-resumable / no-spin / bounded-memory clauses",
@@ -98,7 +98,7 @@ CHECKS = {
          "Histories of full handshakes (TLS 1.0/1.2/1.3; session cache and/or ticket keys; EMS/EtM/SNI/client-certificate options), closes (clean, fatal, abrupt, lost close_notify), clock movements on either side, ticket-key rotations, cache fills, ticket/id tampering (bit flip, truncation, garbage, foreign server, random id) "
          "and resume attempts with unchanged or changed offers are run against two real endpoints; 'resumed' is judged from the client flag and from the wire; a three-valued reference model decides eligibility: resumed only if eligible, forged/altered/expired/foreign/unknown never resume and never break the connection (full handshake completes), "
          "inconsistent offers never resume, resumed connections carry the original suite, EMS, EtM, server name and client identity, and a full handshake after a declined offer records only the identity presented in it.",
-         "boundary ages and RFC-permitted alternatives are 'either'; one open known finding (TLS<=1.2 ticket declined -> client breaks the full handshake) is excluded by construction and counted",
+         "boundary ages and RFC-permitted alternatives are 'either'",
          "DESIGN.md §4 C13"),
  "C14": ("exploration",
          "metamorphic property-based testing: scripted sockets / API paths / record re-framing vs the baseline run of the same seed (byte-identical wire, same outcomes)",
